@@ -1987,6 +1987,37 @@ fn gen_c11(o: &mut Out, r: &mut Rng, d: &GDict, tier: &str) {
 }
 
 /// randomised multi-threaded runs over real TCP through `connect()` (supporting part of C11 / C12)
+/// an identifier used again after its request was answered (never two in flight at once): each request gets its own
+/// answer; the earlier futures have long completed - and are dropped - when the later answers arrive
+fn gen_reuse(o: &mut Out, r: &mut Rng, d: &GDict, tier: &str, uid: &mut u32) {
+    for k in 0..(if tier == "thorough" { 200 } else { 12 }) {
+        let n = 2 + (k % 3) as usize;
+        let x = if k % 4 == 0 { 7 } else { r.next() as u32 };
+        let lens: Vec<usize> = (0..n).map(|_| *r.pick(&[0usize, 5, 40])).collect();
+        let sizes: Vec<usize> = lens.iter().map(|l| request_size(*l)).collect();
+        let sends: Vec<String> = (0..n).map(|i| if i == 0 { format!("{}:{}", x, lens[i]) } else { format!("{}:{}:60000", x, lens[i]) }).collect();
+        let mut rd = vec![];
+        let mut ans = vec![];
+        let mut acc = 0;
+        for i in 0..n {
+            acc += sizes[i];
+            *uid += 1;
+            rd.push(format!("w:{}", acc));
+            if i > 0 && k % 2 == 0 {
+                // the later answers take their time: the earlier futures have been awaited and dropped by then
+                rd.push("t:1000".into());
+            }
+            let f = answer_frame(r, d, x, *uid);
+            let sm = r.below(5);
+            rd.extend(seg(r, &f, sm));
+            ans.push(format!("{}:{}", x, *uid));
+        }
+        rd.push(if k % 3 == 0 { "e".into() } else { "s".to_string() });
+        o.case(&format!("client reuse n={} expect=all silent={}", n, (k % 3 != 0) as u8));
+        o.line(&format!("cli {} {} - {} -", sends.join(","), rd.join(","), ans.join(",")));
+    }
+}
+
 fn gen_ctcp(o: &mut Out, r: &mut Rng, tier: &str, cuts: bool) {
     let thorough = tier == "thorough";
     let mut id = if cuts { 500 } else { 0 };
@@ -2114,6 +2145,16 @@ fn gen_c12(o: &mut Out, r: &mut Rng, d: &GDict, tier: &str) {
             o.line(&format!("cli {} w:{},d:{},s - {}:{} -", s2.join(","), total, hex(&f), ids[0], uid));
             o.case(&format!("client superseded-then-close n={} expect=any silent=0", n));
             o.line(&format!("cli {} w:{},d:{},e - {}:{} 55", s2.join(","), total, hex(&f), ids[0], uid));
+        }
+        if n >= 2 {
+            // ... and the connection ends (or stays silent) before any further message is decoded: the superseded
+            // future must fail all the same
+            let mut s2 = sends.clone();
+            s2[n - 1] = format!("{}:{}", ids[0], lens[n - 1]);
+            for (end, silent) in [("e", 0), ("f", 0), ("s", 1)] {
+                o.case(&format!("client superseded-nomsg end={} n={} expect=any silent={}", end, n, silent));
+                o.line(&format!("cli {} w:{},{} - - {}", s2.join(","), total, end, if silent == 1 { "-".to_string() } else { "57".to_string() }));
+            }
         }
         // (5) a silent, open peer: pending is the right answer, and only then
         o.case(&format!("client silent n={} expect=any silent=1", n));
@@ -2740,11 +2781,15 @@ pub fn generate(family: &str, seed: u64, tier: &str, extra: &[String], w: &mut d
         "c11" => {
             emit_dict(o.w, &d0);
             gen_c11(&mut o, &mut r, &d0, tier);
+            let mut uid = 700000u32;
+            gen_reuse(&mut o, &mut r, &d0, tier, &mut uid);
             gen_ctcp(&mut o, &mut r, tier, false);
         }
         "c12" => {
             emit_dict(o.w, &d0);
             gen_c12(&mut o, &mut r, &d0, tier);
+            let mut uid = 800000u32;
+            gen_reuse(&mut o, &mut r, &d0, tier, &mut uid);
             gen_ctcp(&mut o, &mut r, tier, true);
         }
         "c10" => gen_c10(&mut o, &mut r, tier),
